@@ -1985,10 +1985,12 @@ void SPxMainSM<R>::trivialHeuristic(SPxLPBase<R>& lp)
    VectorBase<R>         upLocks(lp.nCols());
    VectorBase<R>         downLocks(lp.nCols());
 
-   R            zeroObj = this->m_objoffset;
-   R            lowerObj = this->m_objoffset;
-   R            upperObj = this->m_objoffset;
-   R            lockObj = this->m_objoffset;
+   // the objective values below are computed with maxObj(), the offset is stored in the sense of the LP
+   const R      maxObjOffset = (lp.spxSense() == SPxLPBase<R>::MAXIMIZE) ? this->m_objoffset : R(-this->m_objoffset);
+   R            zeroObj = maxObjOffset;
+   R            lowerObj = maxObjOffset;
+   R            upperObj = maxObjOffset;
+   R            lockObj = maxObjOffset;
 
    bool            zerovalid = true;
 
@@ -2122,7 +2124,8 @@ bool SPxMainSM<R>::checkSolution(SPxLPBase<R>& lp, VectorBase<R> sol)
 template <class R>
 void SPxMainSM<R>::propagatePseudoobj(SPxLPBase<R>& lp)
 {
-   R pseudoObj = this->m_objoffset;
+   // the pseudo objective is computed with maxObj(), the offset is stored in the sense of the LP
+   R pseudoObj = (lp.spxSense() == SPxLPBase<R>::MAXIMIZE) ? this->m_objoffset : R(-this->m_objoffset);
 
    for(int j = lp.nCols() - 1; j >= 0; --j)
    {
